@@ -1,4 +1,4 @@
-CONSTANTS Values = {0, 1, 255, 256, 65535, 65536, 16777215, 16777216, 2147483646, 2147483647}  MaxDepth = 3  SeedLen = 16  Filter = "all"
+CONSTANTS Values = {0, 1, 255, 256, 65536, 16777215, 16777216, 2147483647}  MaxDepth = 3  SeedLen = 16  Filter = "all"
 SPECIFICATION SpecE
 INVARIANTS CommutesAlongPath CommutesOneStep Kinds Metadata KeyIsSumOfTweaks Layouts TextRoundTrip CompactSound
 ACTION_CONSTRAINT Emit
